@@ -60,6 +60,13 @@ func runC03(c *CaseCtx) {
 		}
 	}
 	merged := false
+	if cfg.Mode != 2 && c.Case%6 == 4 {
+		// a bucket emptied completely, Merge, the same keys again: then the sweep
+		if !drainMergeReput(run, g, class) {
+			return
+		}
+		merged = true
+	}
 	if cfg.Mode != 2 && c.Case%3 == 1 && run.Files() >= 2 {
 		// a Merge in the same process before the sweep (counters and flags of the handle that Merge touches), followed
 		// by puts of keys that were dead at the time of the Merge; no reopen afterwards
